@@ -446,6 +446,57 @@ Fixpoint wrap_places (cols rows : Z) (lsegs : list lineseg) (col row : Z) : list
 
 End TextSpec.
 
+(* ---- predicates used in the theorem statements ---- *)
+
+(* a screen whose buffer has the advertised shape (what screen.resize establishes) *)
+Definition WF (s : screen) : Prop :=
+  zlen (sbuf s) = srows s /\ Forall (fun l => zlen l = scols s) (sbuf s).
+
+Definition same_dims (s s' : screen) : Prop := scols s' = scols s /\ srows s' = srows s.
+
+(* [s'] is [s] with the cell at (X,Y) replaced by [f old] *)
+Definition updated_at (s s' : screen) (X Y : Z) (f : cell -> cell) : Prop :=
+  WF s' /\ same_dims s s' /\
+  (exists old, sget s X Y = Some old /\ sget s' X Y = Some (f old)) /\
+  forall x y, (x <> X \/ y <> Y) -> sget s' x y = sget s x y.
+
+(* nothing outside the clip changes *)
+Definition clipped (w : window) (s s' : screen) : Prop :=
+  WF s' /\ same_dims s s' /\ forall X Y, visible w s X Y = false -> sget s' X Y = sget s X Y.
+
+(* "somewhere later in reading order": the same position, or column 0 of a later row *)
+Definition reach (a b : Z * Z) : Prop :=
+  (snd b = snd a /\ fst b = fst a) \/ (snd a < snd b /\ fst b = 0).
+
+(* a list of placements is a walk in reading order from [st] to [en]: each cluster is put at
+   the current position or at column 0 of a later row, and the walk continues right after
+   the cluster (advance by its width) *)
+Fixpoint path_ok (st : Z * Z) (ps : list placement) (en : Z * Z) : Prop :=
+  match ps with
+  | [] => reach st en
+  | p :: t => reach st (fst p) /\ path_ok (fst (fst p) + cw (snd p), snd (fst p)) t en
+  end.
+
+(* consecutive placements: same row right after the previous glyph, or column 0 of a later
+   row; when [nonl] (no line break in the text) a later row is the next row and is started
+   only because the row was full or the next cluster did not fit *)
+Definition step_ok (nonl : bool) (cols : Z) (p1 p2 : placement) : Prop :=
+  let '(x1, y1, c1) := p1 in
+  let '(x2, y2, c2) := p2 in
+  (y2 = y1 /\ x2 = x1 + cw c1) \/
+  (y1 < y2 /\ x2 = 0 /\
+   (nonl = true -> y2 = y1 + 1 /\ (cols <= x1 + cw c1 \/ cols < x1 + cw c1 + cw c2))).
+
+Fixpoint layout_ok (nonl : bool) (cols : Z) (ps : list placement) : Prop :=
+  match ps with
+  | p1 :: ((p2 :: _) as t) => step_ok nonl cols p1 p2 /\ layout_ok nonl cols t
+  | _ => True
+  end.
+
+(* glyphs never overhang the right edge (an ellipsis is one column wide) *)
+Definition fits_in (cols : Z) (p : placement) : Prop :=
+  fst (fst p) + cw (snd p) <= cols \/ cw (snd p) <= 1.
+
 (* ------------------------------------------------------------------ correspondence *)
 
 (* how the harness builds a window: the root is Vaxis.Window() or a Window literal, every
@@ -521,10 +572,9 @@ Record obs := mkObs { o_outcome : Z; o_frames : list frame; o_origin : Z * Z;
 Record case := mkCase { c_cols : Z; c_rows : Z; c_bg : cell; c_win : wspec; c_remeasure : bool;
                         c_tab : otable; c_op : op; c_obs : obs }.
 
-Definition run_op (tab : otable) (remeasure : bool) (w : window) (s : screen) (o : op)
-  : option (screen * (Z * Z)) :=
-  let m := tab_measure tab in
-  let tr := tab_trailing tab in
+(* one drawing call, for arbitrary oracles *)
+Definition run_op_with (m : text -> Z) (remeasure : bool) (tr : text -> bool)
+           (w : window) (s : screen) (o : op) : option (screen * (Z * Z)) :=
   let noret (r : option screen) := match r with None => None | Some s' => Some (s', (0, 0)) end in
   match o with
   | OSetCell col row c => noret (win_setcell w s col row c)
@@ -536,6 +586,10 @@ Definition run_op (tab : otable) (remeasure : bool) (w : window) (s : screen) (o
   | OPrintln row segs => noret (win_println m remeasure w s row segs)
   | OWrap lsegs => win_wrap m remeasure tr w s lsegs
   end.
+
+Definition run_op (tab : otable) (remeasure : bool) (w : window) (s : screen) (o : op)
+  : option (screen * (Z * Z)) :=
+  run_op_with (tab_measure tab) remeasure (tab_trailing tab) w s o.
 
 Definition diff_eqb (a b : list (Z * Z * cell)) : bool :=
   list_eqb (fun p q => (fst (fst p) =? fst (fst q)) && (snd (fst p) =? snd (fst q)) && cell_eqb (snd p) (snd q)) a b.
